@@ -127,6 +127,10 @@ func getLogoutRequestFromRequest(r *http.Request) (*LogoutRequestForm, error) {
 		Encoding:      r.Form.Get("SAMLEncoding"),
 		RelayState:    r.Form.Get("RelayState"),
 	}
+	// the redirect binding deflates the message; like on the SSO endpoint this is the default for requests in the URL query
+	if _, ok := r.URL.Query()["SAMLRequest"]; ok && request.Encoding == "" {
+		request.Encoding = xml.EncodingDeflate
+	}
 
 	return request, nil
 }
